@@ -18,11 +18,11 @@ ASSUMPTIONS = ["floating point rounding below 1e-9 is not observable",
                "for surfaces, control point lists shorter than size_u * size_v are not generated (IndexError while rebuilding ctrlpts2d leaves a half-updated object)"]
 THEOREM_NOTES = ("coq/Props/C09.v: inverse laws of the helper conversions [G, reals, non-zero weights]; view machine invariant and "
                  "views_consistent_after_any_history [G, any scalar type, induction over operation lists]; set_view_roundtrip [G]; "
-                 "weight scaling invariance for curves, surfaces, volumes [G]; unit weights same shape: curves on the half-open domain [G], "
-                 "surfaces/volumes and the domain end only by correspondence (partial); GridWeighted own weight and cache invariant [G]")
+                 "weight scaling invariance for curves, surfaces, volumes [G]; unit weights same shape: curves, surfaces and volumes at EVERY parameter incl. the closed domain ends [G, round 2, "
+                 "Proofs/WeightsUnit.v; the unconditional Definition is refuted on a ragged net and replaced by the well-formed statement]; GridWeighted own weight and cache invariant [G]")
 LEVEL_TEXT = ("Coq theorems about the Gallina model Model/Weights.v + Model/Eval.v: helper conversions mutually inverse, cache invariant of the "
               "NURBS view machine over arbitrary operation lists, setter round trips, weight-scaling invariance (all kinds), unit-weight "
-              "equivalence (curves, half-open domain; rest partial), GridWeighted own-weight and cache invariant; model tied to /repo by "
+              "equivalence (curves, surfaces, volumes, every parameter), GridWeighted own-weight and cache invariant; model tied to /repo by "
               "five correspondence families evaluated in Coq")
 TECHNIQUE = "machine-checked proof in Coq over a hand-written Gallina model + model/implementation correspondence check evaluated by coqc (vm_compute) + exact Fraction oracles"
 
